@@ -586,6 +586,25 @@ pub fn run(args: &[String]) -> Value {
                         }
                         rec.foreign = None;
                     }
+                    "xcc" => {
+                        // every operand of a counting comparison lives in another environment
+                        let len = r.gen_range(1..=4);
+                        let mut bs: Vec<Node> = (0..len)
+                            .map(|_| { let tt: Vec<bool> = (0..(1usize << nv)).map(|_| r.gen_bool(0.5)).collect(); rec.foreign_from_table(&tt, 1) })
+                            .collect();
+                        if len >= 2 && r.gen_bool(0.3) {
+                            bs[1] = Rc::clone(&bs[0]);
+                        }
+                        rec.foreign = Some("bs");
+                        if r.gen_bool(0.6) {
+                            let n: i64 = r.gen_range(-1..=len as i64 + 1);
+                            rec.rec_cc(["aln", "amn", "exn"][r.gen_range(0..3)], &bs, n);
+                        } else {
+                            let cut = r.gen_range(0..=len);
+                            rec.rec_cl(["leq", "lt", "geq", "gt", "eq"][r.gen_range(0..5)], &bs[..cut], &bs[cut..]);
+                        }
+                        rec.foreign = None;
+                    }
                     "xite" => {
                         let g = { let tt: Vec<bool> = (0..(1usize << nv)).map(|_| r.gen_bool(0.5)).collect(); rec.foreign_from_table(&tt, 1) };
                         let h = { let tt: Vec<bool> = (0..(1usize << nv)).map(|_| r.gen_bool(0.5)).collect(); rec.foreign_from_table(&tt, 1) };
@@ -684,7 +703,9 @@ pub fn exec(args: &[String]) -> Value {
         let fo = c["foreign"].as_str().unwrap_or("").to_string();
         let nd = |v: &Value| build_env(&rec.env, v, &rec.map);
         let nd2 = |v: &Value, which: &str| if fo.contains(which) { build_env(&rec.env2, v, &rec.map) } else { build_env(&rec.env, v, &rec.map) };
-        let nds = |v: &Value| -> Vec<Node> { v.as_array().expect("list").iter().map(|x| build_env(&rec.env, x, &rec.map)).collect() };
+        let nds = |v: &Value| -> Vec<Node> {
+            v.as_array().expect("list").iter().map(|x| build_env(if fo == "bs" { &rec.env2 } else { &rec.env }, x, &rec.map)).collect()
+        };
         match c["k"].as_str().unwrap_or("") {
             "bin" => {
                 let (a, b) = (nd2(&c["a"], "a"), nd2(&c["b"], "b"));
